@@ -22,7 +22,7 @@ ASSUMPTIONS = [
 ]
 N_CASES = {"quick": 700, "thorough": 18000}
 DT = [["float64"], ["float32"], ["int64"], ["int32"], ["float64", "int64"], ["float64", "float32"], ["float64"], ["int32", "float64"]]
-HL_STR = {"1s": 1e9, "2500ms": 2.5e9, "1h": 3600e9, "90s": 90e9, "250us": 250e3}
+HL_STR = {"1s": 1e9, "2500ms": 2.5e9, "1h": 3600e9, "90s": 90e9, "250us": 250e3, "2us": 2e3, "3us": 3e3}
 
 
 def plan(tier):
@@ -35,7 +35,7 @@ def plan(tier):
 
 def required_counters(tier):
     return ["timed", "fractional_halflife", "leading_null", "masked", "alpha_one", "by_groups", "ungrouped_compared",
-            "interleaving_compared", "ema_grouped_direct", "times_not_ns", "times_pre1970"]
+            "interleaving_compared", "ema_grouped_direct", "times_not_ns", "times_pre1970", "tick_times"]
 
 
 def features(case):
@@ -47,6 +47,8 @@ def features(case):
             f.append("times_not_ns")
         if case["times"]["vals"] and case["times"]["vals"][0] <= 0:
             f.append("times_pre1970")
+        if case["times"].get("fine"):
+            f.append("tick_times")
     if "halflife" in p and not case.get("times") and float(p["halflife"]) != int(p["halflife"]):
         f.append("fractional_halflife")
     if p.get("alpha") == 1.0:
@@ -263,8 +265,10 @@ def gen_case(rng, dtypes):
     else:
         unit = gen.pick(rng, ["ns", "ns", "us", "ms", "s"])
         start = gen.pick(rng, [1_600_000_000, 1_600_000_000, 0, -86_400 * 365])
-        case["times"] = common.gen_times(rng, n, unit=unit, start=start)
-        case["params"] = {"halflife": gen.pick(rng, ["1s", "2500ms", "1h", "90s"]), "hl_as_timedelta": bool(rng.random() < 0.3)}
+        fine = bool(rng.random() < 0.35) and unit in ("ns", "us")
+        case["times"] = common.gen_times(rng, n, unit=unit, start=start, fine=fine)
+        case["params"] = {"halflife": gen.pick(rng, ["250us", "250us", "1s"] if fine and unit == "us" else (["2us", "3us", "250us"] if fine else ["1s", "2500ms", "1h", "90s"])),
+                          "hl_as_timedelta": bool(rng.random() < 0.3)}
     if case["vc"] == "pd" and rng.random() < 0.5:
         case["index"] = gen.gen_index(rng, n)
     if rng.random() < 0.2:
